@@ -17,8 +17,9 @@ namespace ys {
 // encode_dispatch_data
 
 struct EmittedData {
-    std::size_t headroom = 0, nslots = 0, nvtbls = 0, ndecoded = 0, ndtbls = 0;
-    std::vector<std::uint16_t> slots, vtbls; // initialisers present
+    std::size_t headroom = 0, nslots = 0, nvtbls = 0, ndecoded = 0, ndtbls = 0,
+                nnexts = 0;
+    std::vector<std::uint16_t> slots, vtbls, nexts; // initialisers present
     std::vector<std::uintptr_t> dtbls;
     std::string policy; // template argument of the decode call
 };
@@ -176,11 +177,12 @@ inline std::string parse_emitted(const std::string& text, EmittedData& em) {
         !dim_after(s, "uint16_t slots[", at, em.nslots, why) ||
         !dim_after(s, "uint16_t vtbls[", at, em.nvtbls, why) ||
         !dim_after(s, "std::uintptr_t vtbls[", at, em.ndecoded, why) ||
-        !dim_after(s, "std::uintptr_t dtbls[", at, em.ndtbls, why))
+        !dim_after(s, "std::uintptr_t dtbls[", at, em.ndtbls, why) ||
+        !dim_after(s, "uint16_t nexts[", at, em.nnexts, why))
         return why;
     const std::size_t sane = 1u << 22;
     if (em.headroom > sane || em.nslots > sane || em.nvtbls > sane ||
-        em.ndecoded > sane || em.ndtbls > sane)
+        em.ndecoded > sane || em.ndtbls > sane || em.nnexts > sane)
         return "absurd array bound";
     std::size_t name = s.find("yomm2_dispatch_data", at);
     if (name == std::string::npos)
@@ -196,9 +198,10 @@ inline std::string parse_emitted(const std::string& text, EmittedData& em) {
     skip_ws(s, i);
     if (i >= s.size() || s[i] != ';')
         return "expected ';' after the initialiser";
-    // { {union: { encoded: { {headroom}, {slots}, {vtbls} } } }, {dtbls} }
-    if (top.kids.empty() || top.kids.size() > 2)
-        return "top level: expected the union and dtbls";
+    // { {union: { encoded: { {headroom}, {slots}, {vtbls} } } }, {dtbls},
+    //   {nexts} }
+    if (top.kids.empty() || top.kids.size() > 3)
+        return "top level: expected the union, dtbls and nexts";
     const Node& un = top.kids[0];
     if (un.leaf || un.kids.size() != 1)
         return "union: expected one braced member (encoded)";
@@ -219,8 +222,11 @@ inline std::string parse_emitted(const std::string& text, EmittedData& em) {
     if (enc.kids.size() >= 3 &&
         !leaves(enc.kids[2], em.nvtbls, 0xffff, em.vtbls, "vtbls", why))
         return why;
-    if (top.kids.size() == 2 &&
+    if (top.kids.size() >= 2 &&
         !leaves(top.kids[1], em.ndtbls, ~0ull, em.dtbls, "dtbls", why))
+        return why;
+    if (top.kids.size() >= 3 &&
+        !leaves(top.kids[2], em.nnexts, 0xffff, em.nexts, "nexts", why))
         return why;
     std::size_t call = s.find("yorel::yomm2::decode_dispatch_data<", i);
     if (call == std::string::npos)
@@ -236,7 +242,8 @@ inline std::string parse_emitted(const std::string& text, EmittedData& em) {
 // The emitted object, laid out as the emitted struct declaration says, in one
 // heap block of exactly its size (AddressSanitizer guards both ends), and the
 // view of it decode_dispatch_data<Policy>(Data&) works on: it only uses
-// init.encoded.slots, init.encoded.vtbls, init.vtbls, init.dtbls as pointers.
+// init.encoded.slots, init.encoded.vtbls, init.vtbls, init.dtbls, init.nexts
+// as pointers.
 struct DecodeView {
     struct {
         std::uint16_t* slots;
@@ -244,6 +251,7 @@ struct DecodeView {
     } encoded;
     std::uintptr_t* vtbls;
     std::uintptr_t* dtbls;
+    std::uint16_t* nexts;
 };
 
 inline unsigned char*
@@ -251,13 +259,18 @@ layout_emitted(const EmittedData& em, DecodeView& d, std::size_t& size) {
     const std::size_t enc_bytes = 2 * (em.headroom + em.nslots + em.nvtbls);
     std::size_t usize = enc_bytes > 8 * em.ndecoded ? enc_bytes : 8 * em.ndecoded;
     usize = (usize + 7) / 8 * 8;
-    size = usize + 8 * em.ndtbls;
+    // struct { union; uintptr_t dtbls[]; uint16_t nexts[]; }: alignment 8
+    const std::size_t nexts_at = usize + 8 * em.ndtbls;
+    size = (nexts_at + 2 * em.nnexts + 7) / 8 * 8;
     auto block = (unsigned char*)std::calloc(1, size ? size : 1);
     auto enc = reinterpret_cast<std::uint16_t*>(block);
     d.encoded.slots = enc + em.headroom;
     d.encoded.vtbls = enc + em.headroom + em.nslots;
     d.vtbls = reinterpret_cast<std::uintptr_t*>(block);
     d.dtbls = reinterpret_cast<std::uintptr_t*>(block + usize);
+    d.nexts = reinterpret_cast<std::uint16_t*>(block + nexts_at);
+    for (std::size_t i = 0; i < em.nexts.size(); ++i)
+        d.nexts[i] = em.nexts[i];
     for (std::size_t i = 0; i < em.slots.size(); ++i)
         d.encoded.slots[i] = em.slots[i];
     for (std::size_t i = 0; i < em.vtbls.size(); ++i)
